@@ -10,18 +10,6 @@ import JediVerif.Impl.Miller
 namespace Jedi.Driver
 open Jedi.Impl
 
-/-- the library's constant tables (stored in Montgomery form) as field elements, for the generated code -/
-def unmontC (x : Nat) : Fq := Fin.ofNat q x * fqRinv
-def unmontC2 (p : Nat × Nat) : Fq2 := ⟨unmontC p.1, unmontC p.2⟩
-open Jedi.Gen in
-instance : TowerConsts Fq where
-  fq2_frobenius_coeff i := unmontC (Consts.fq2_frobenius_coeff.getD i 0)
-  fq6_frobenius_coeff_c1 i := unmontC2 (Consts.fq6_frobenius_coeff_c1.getD i (0, 0))
-  fq6_frobenius_coeff_c2 i := unmontC2 (Consts.fq6_frobenius_coeff_c2.getD i (0, 0))
-  fq12_frobenius_coeff_c1 i := unmontC2 (Consts.fq12_frobenius_coeff_c1.getD i (0, 0))
-  g1_endomorphism_beta := unmontC Consts.g1_endomorphism_beta
-  uplusonetotheqminusoneoversix := unmontC2 Consts.uplusonetotheqminusoneoversix
-
 def affOf {F : Type} (a : F × F × Bool) : Aff F := ⟨a.1, a.2.1, a.2.2⟩
 
 def ptG1 (a : Fq × Fq × Bool) : G1Pt := affPt a
